@@ -120,6 +120,20 @@ Theorem C16_dispatch_agrees_with_oracle : forall p e c v,
 Proof. exact dispatch_agrees_with_oracle. Qed.
 Print Assumptions C16_dispatch_agrees_with_oracle.
 
+(* operands outside [0,p): the dispatch never passes one (C16_dispatch_sound:
+   every attached constant is canonical); called directly, sixteen of the
+   functions reduce their operands themselves *)
+Theorem C16_reducing_functions_on_any_integers : forall o a b p,
+  0 < p ->
+  match o with
+  | OAdd | OMul | OSub | OIDiv | OMod | ONeg | OAsBool | ONot | OOr | OAnd
+  | OEq | OLt | ONeq | OLe | OGt | OGe => true
+  | _ => false
+  end = true ->
+  eval o a b p = eval o (a mod p) (b mod p) p.
+Proof. exact eval_reduces_operands. Qed.
+Print Assumptions C16_reducing_functions_on_any_integers.
+
 (* ---- bounded work of `**`: the multiplication sequence of the library's
    windowed modular exponentiation (Model.FieldPow) ---- *)
 
@@ -146,6 +160,7 @@ Example C16_dispatch_witnesses :
   lit_dispatch 7 (LInfix IAnd (LNum 3) (LNum 4)) = Ok None /\
   lit_dispatch 7 (LInfix IDiv (LNum 3) (LNum 5)) = Ok (Some (VField 2)) /\
   doc_eval 7 (LInfix IDiv (LNum 3) (LNum 5)) = Ok 2 /\
+  eval OLe (-2) 12 7 = eval OLe 5 5 7 /\ eval OBand 8 1 7 <> eval OBand 1 1 7 /\
   modpow_steps 3 5 7 = Ok (5, 93) /\ modpow_steps 0 6 7 = Ok (0, 93) /\ modpow_steps 3 0 7 = Ok (1, 17) /\
   modpow_steps 3 (2 ^ 64) 7 = Ok (4, 173) /\ modpow_steps 3 (-1) 7 = Panic site_modpow_negative_exponent.
 Proof. vm_compute. repeat split; try reflexivity; intro; discriminate. Qed.
